@@ -137,8 +137,8 @@ def region_request(axes):
 # (A) region requests on the real code
 # ------------------------------------------------------------------------------------------------
 
-def real_region(env, axes):
-    """Answer line in the driver's format, computed from the implementation."""
+def real_region(env, axes, run=True):
+    """Answer line in the driver's format, computed from the implementation (`run=False`: build the op only)."""
     import numpy as np
     import zarr
 
@@ -185,6 +185,10 @@ def real_region(env, axes):
             consistent = False
     extra["keys_consistent"] = consistent
     extra["has_blocks"] = bool(blocks)
+    if not run:
+        return "verdict=ok offsets=%s blocks=%s declared=%d" % (
+            ",".join(map(str, offs)) if offs is not None else "?",
+            " ".join(".".join(map(str, b)) for b in blocks), pop.num_tasks), extra
     ex = cc.executors()["single"]()
     outcome = "ok"
     try:
@@ -202,7 +206,7 @@ def real_region(env, axes):
     return line, extra
 
 
-def corr_regions(ctx, env, n):
+def prep_regions(ctx, n):
     cases = [gen_region_case(ctx.rng) for _ in range(n)]
     # the concrete witnesses of the `_fails` theorems and of the examples in Properties/C11.lean
     fixed = [
@@ -219,7 +223,10 @@ def corr_regions(ctx, env, n):
     ]
     cases = fixed + cases
     reqs = [region_request(c) for c in cases]
-    ans = ctx.lean.drive(DRIVER, reqs)
+    return cases, reqs
+
+
+def check_regions(ctx, env, cases, reqs, ans):
     for axes, rq, model in zip(cases, reqs, ans):
         try:
             impl, extra = real_region(env, axes)
@@ -261,19 +268,23 @@ def region_oracle_case(axes):
 # (B) pairing
 # ------------------------------------------------------------------------------------------------
 
-def corr_pairing(ctx, env):
-    import numpy as np
-
-    import cubed
-    import cubed.array_api as xp
-    import os
-
+def prep_pairing(ctx):
     combos = [(ns, nt, r) for ns in range(0, 4) for nt in range(0, 4)
               for r in ["N", "one"] + ["many:%d" % k for k in range(0, 4)]]
     if ctx.tier == "quick":
         combos = ctx.rng.sample(combos, 40)
     reqs = ["pairs|%d|%d|%s" % c for c in combos]
-    ans = ctx.lean.drive(DRIVER, reqs)
+    return combos, reqs
+
+
+def check_pairing(ctx, env, combos, reqs, ans):
+    import os
+
+    import numpy as np
+
+    import cubed
+    import cubed.array_api as xp
+
     for (ns, nt, r), rq, model in zip(combos, reqs, ans):
         srcs = [xp.asarray(np.arange(4) + i, chunks=(2,), spec=env.spec) for i in range(ns)]
         tgts = [env.fresh() for _ in range(nt)]
@@ -356,9 +367,7 @@ def gen_store_case(rng):
     return {"shape": shape, "pool": pool, "pairs": pairs, "api": "store", "compute": "lazy", "executor": "single"}
 
 
-def corr_store(ctx, env, n):
-    import numpy as np
-
+def prep_store(ctx, env, n):
     cases = [gen_store_case(ctx.rng) for _ in range(n)]
     fixed = [
         {"shape": [8], "pool": [{"op": "asarray", "chunks": [4]}, {"op": "add1", "arg": 0}],
@@ -390,13 +399,19 @@ def corr_store(ctx, env, n):
                 cs = p["target"]["chunks"]
                 p["accepted"] = all((r[0] % c == 0) and (r[1] % c == 0 or r[1] == 2 * s)
                                     for r, c, s in zip(p["region"], cs, case["shape"]))
-        lazy = [cc.is_lazy(a) for a in arrs]
-        deps = [cc.lazy_ancestors(arrs, i) for i in range(len(arrs))]
-        tab = " ".join("%d:%d:%s" % (i, int(lazy[i]), ".".join(map(str, deps[i]))) for i in range(len(arrs)))
-        prs = " ".join("%d:%d:%d:%d" % (p["src"], 100 + k, int(p["region"] is not None), int(p["accepted"]))
+        info = cc.pool_info(case, arrs)
+        lazy, deps, ident, comp = info["lazy"], info["deps"], info["ident"], info["computed"]
+        tab = " ".join("%d:%d:%s:%d" % (i, int(lazy[i]), ".".join(str(ident[d]) for d in deps[i]), int(comp[i]))
+                       for i in range(len(arrs)) if ident[i] == i)
+        prs = " ".join("%d:%d:%d:%d" % (ident[p["src"]], 100 + k, int(p["region"] is not None), int(p["accepted"]))
                        for k, p in enumerate(case["pairs"]))
         prepared.append((case, "store|%s|%s" % (tab, prs)))
-    ans = ctx.lean.drive(DRIVER, [rq for _, rq in prepared])
+    return prepared, [rq for _, rq in prepared]
+
+
+def check_store(ctx, env, prepared, reqs, ans):
+    import numpy as np
+
     for (case, rq), model in zip(prepared, ans):
         run = dict(case, pairs=[{k: v for k, v in p.items() if k != "accepted"} for p in case["pairs"]])
         try:
@@ -431,17 +446,20 @@ def corr_store(ctx, env, n):
 # (D) no-region identity copy into an existing array of another length
 # ------------------------------------------------------------------------------------------------
 
-def corr_copy(ctx, env, n):
+def prep_copy(ctx, n):
+    cases = [(ctx.rng.randint(1, 12), ctx.rng.randint(1, 5), ctx.rng.randint(1, 12)) for _ in range(n)]
+    cases = [(m, min(sc, m), nn if ctx.rng.random() < 0.5 else m) for m, sc, nn in cases] + [(8, 4, 6), (8, 4, 10)]
+    reqs = ["copy|%d,%d,%d" % c for c in cases]
+    return cases, reqs
+
+
+def check_copy(ctx, env, cases, reqs, ans):
     import numpy as np
     import zarr
 
     import cubed
     import cubed.array_api as xp
 
-    cases = [(ctx.rng.randint(1, 12), ctx.rng.randint(1, 5), ctx.rng.randint(1, 12)) for _ in range(n)]
-    cases = [(m, min(sc, m), nn if ctx.rng.random() < 0.5 else m) for m, sc, nn in cases] + [(8, 4, 6), (8, 4, 10)]
-    reqs = ["copy|%d,%d,%d" % c for c in cases]
-    ans = ctx.lean.drive(DRIVER, reqs)
     for (m, sc, nn), rq, model in zip(cases, reqs, ans):
         p = env.fresh()
         z = zarr.create_array(p, shape=(nn,), chunks=(sc,), dtype="int64", fill_value=0)
@@ -467,13 +485,73 @@ def corr_copy(ctx, env, n):
                              "api": "store", "compute": "eager", "executor": "single"}}, model, impl)
 
 
+def prep_builds(ctx):
+    """thorough tier: every 1-D request with n <= 6, cs <= 3, start/stop in {None} + [-n-1, n+1], step in {None, 1, 2},
+    source of the region's size (and one element more for every 7th), equal chunking - built, not executed."""
+    if ctx.tier != "thorough":
+        return [], []
+    cases = []
+    k = 0
+    for n in range(1, 7):
+        for cs in range(1, min(n, 3) + 1):
+            bounds = [None] + list(range(-n - 1, n + 2))
+            for start in bounds:
+                for stop in bounds:
+                    for step in (None, 1, 2):
+                        k += 1
+                        m = len(range(*slice(start, stop, step).indices(n)))
+                        if k % 7 == 0:
+                            m += 1
+                        if m == 0:
+                            continue
+                        if (start, stop, step) == (None, None, None):
+                            continue
+                        cases.append([{"n": n, "cs": cs, "sl": (start, stop, step), "m": m, "sc": min(cs, m)}])
+    return cases, [region_request(c) for c in cases]
+
+
+def check_builds(ctx, env, cases, reqs, ans):
+    import re
+    for axes, rq, model in zip(cases, reqs, ans):
+        try:
+            impl, extra = real_region(env, axes, run=False)
+        except Exception as e:  # noqa: BLE001
+            ctx.fail("harness could not build the region case: %r" % (e,), {"request": rq})
+            continue
+        m = re.sub(r" outcome=.*$", "", model)
+        if impl.startswith("verdict=ok") and not extra.get("has_blocks"):
+            m = re.sub(r"offsets=\S*", "offsets=?", m)
+        ctx.count({"build": rq, "impl": impl[:120]}, nontrivial=impl.startswith("verdict=ok") and extra.get("has_blocks", False),
+                  kind="build:" + impl.split(" ")[0].split("=")[1].split(":")[0])
+        if extra.get("untouched") is False:
+            ctx.fail("region store raised ValueError after the target had been modified", {"request": rq})
+        if m != impl:
+            ctx.disagree("StoreSem.validate/blockOffset/outputBlocks/declaredTasks = _store_array region branch (exhaustive small 1-D)",
+                         {"request": rq, "oracle_case": region_oracle_case(axes)}, m, impl)
+    if cases:
+        ctx.exhaustive = True
+        ctx.notes.append("thorough: all %d one-axis requests with n<=6, cs<=3, bounds in {None} + [-n-1, n+1], step in {None,1,2} and a "
+                         "non-empty source built on the implementation and compared with validate/offsets/blocks/declared"
+                         % len(cases))
+
+
 def corr(ctx):
     env = cc.Env()
     try:
-        corr_regions(ctx, env, ctx.budget(120, 1500))
-        corr_pairing(ctx, env)
-        corr_store(ctx, env, ctx.budget(30, 400))
-        corr_copy(ctx, env, ctx.budget(15, 150))
+        parts = [
+            (check_regions,) + prep_regions(ctx, ctx.budget(100, 700)),
+            (check_pairing,) + prep_pairing(ctx),
+            (check_store,) + prep_store(ctx, env, ctx.budget(30, 250)),
+            (check_copy,) + prep_copy(ctx, ctx.budget(15, 120)),
+            (check_builds,) + prep_builds(ctx),
+        ]
+        # one driver invocation for everything
+        allreq = [rq for _, _, reqs in parts for rq in reqs]
+        ans = ctx.lean.drive(DRIVER, allreq)
+        pos = 0
+        for fn, cases, reqs in parts:
+            fn(ctx, env, cases, reqs, ans[pos:pos + len(reqs)])
+            pos += len(reqs)
     finally:
         env.close()
 
@@ -562,7 +640,8 @@ def gen_oracle_case(rng):
             tch = list(chunks) if same else [rng.randint(1, 4) for _ in range(nd)]
             tshape = [s + c * rng.choice([0, 1, 2]) for s, c in zip(shape, tch)]
             flavour = rng.choice(["aligned"] * 6 + ["misaligned", "misaligned", "negative", "stepped"])
-            mshape = shape
+            # sometimes a region of another size than the source (must be rejected)
+            mshape = shape if rng.random() < 0.92 else [max(1, s + rng.choice([-1, 1])) for s in shape]
             region = gen_region(rng, tshape, tch, mshape, flavour)
             if region is None:
                 region = gen_region(rng, tshape, tch, mshape, "aligned")
@@ -706,7 +785,7 @@ def oracle(ctx):
         for w in WITNESSES:
             oracle_one(ctx, env, w, "witness")
         oracle_pairing(ctx, env)
-        for _ in range(ctx.budget(140, 2200)):
+        for _ in range(ctx.budget(120, 1000)):
             oracle_one(ctx, env, gen_oracle_case(ctx.rng))
     finally:
         env.close()
@@ -740,3 +819,34 @@ def search(ctx):
                 break
     finally:
         env.close()
+
+
+def replay(ctx, body):
+    """`./check C11 --replay replays/C11-<seed>-failing-input.json`: run the recorded case again and print what happens."""
+    import json
+    case = body.get("case") or {}
+    if "pairing" in case:
+        env = cc.Env()
+        try:
+            oracle_pairing(ctx, env)
+        finally:
+            env.close()
+    elif "pairs" in case:
+        run = {k: v for k, v in case.items() if k not in ("observed", "error")}
+        env = cc.Env()
+        try:
+            res = cc.run_case(env, run)
+            print("replay:", json.dumps(run))
+            print("status:", res["status"], "| error:", res["error"])
+            for f in res["failures"]:
+                print("FAILS:", f)
+            if not res["failures"]:
+                print("no failure on this tree")
+            else:
+                print("classified as:", cc.classify(run, res["info"]))
+            for t, a in zip(res["targets"], res["after"]):
+                print("target", t["path"], "->", None if a is None else a.tolist())
+        finally:
+            env.close()
+    else:
+        print("nothing to replay in this file (broken obligation: see 'no_longer_checks')")
